@@ -61,6 +61,7 @@ func init() {
 			return nil
 		},
 		zz + "Frozen":   zzFrozen,
+		zz + "FrozenGlobals": zzFrozenGlobals,
 		zz + "Concrete": zzConcrete,
 		zz + "Yield":    func(fr *frame, a []value) value { fr.i.sched.block(func() bool { return true }, "zzsym.Yield"); return nil },
 		zz + "Preempt":  func(fr *frame, a []value) value { fr.i.sched.preemptPoint("zzsym.Preempt"); return nil },
@@ -408,6 +409,14 @@ func zzFrozen(fr *frame, a []value) value {
 			}
 		case iface:
 			walk(v.v)
+		case *closure:
+			if v == nil || seen[v] {
+				return
+			}
+			seen[v] = true
+			for _, e := range v.Env {
+				walk(e)
+			}
 		case *hashmap:
 			if v == nil || seen[v] {
 				return
@@ -422,6 +431,9 @@ func zzFrozen(fr *frame, a []value) value {
 	}
 	for _, r := range a[1].([]value) {
 		walk(r)
+	}
+	if label == "\x00globals" {
+		return nil
 	}
 	if i.logging {
 		// freezing requested inside Body lasts for this path only
@@ -574,4 +586,30 @@ func fmtDesym(argsIdx int) externalFn {
 		fr.i.skipExt = true
 		return call(fr.i, fr.caller, token.NoPos, fr.i.curExtFn, a)
 	}
+}
+
+// zzFrozenGlobals(label string, prefixes ...string): every package-level
+// variable of the packages whose import path starts with one of the prefixes
+// (and everything reachable from it) must not be written for the rest of the path.
+func zzFrozenGlobals(fr *frame, a []value) value {
+	i := fr.i
+	label := fr.cstr(a[0])
+	var prefixes []string
+	for _, p := range a[1].([]value) {
+		prefixes = append(prefixes, fr.cstr(p))
+	}
+	var roots []value
+	for g, cell := range i.globals {
+		if g.Pkg == nil {
+			continue
+		}
+		path := g.Pkg.Pkg.Path()
+		for _, p := range prefixes {
+			if strings.HasPrefix(path, p) && !strings.HasSuffix(path, "/zzsym") && !strings.HasPrefix(g.Name(), "init$") {
+				roots = append(roots, iface{t: nil, v: cell})
+				break
+			}
+		}
+	}
+	return zzFrozen(fr, []value{label, roots})
 }
